@@ -872,7 +872,7 @@ func init() {
 		return c19Res(dirhash.HashDir(dir, m.Path+"@"+m.Version, dirhash.Hash1))
 	}
 	register(&Prop{ID: "C19", Gen: genC19, Oracle: oracleC19,
-		Rule: "file sets of 0-12 (name, content) pairs from pools (unicode, spaces, double spaces, prefixes of each other, case pairs, newline/NUL/0xff names, hex-looking names, empty and equal contents, SHA-256 block-boundary lengths) and their permutations; real directories (trees of depth <= 3, weird prefixes) and real zips (archive/zip with duplicates and directory entries; zip.Create module zips extracted by zip.Unzip); `open` readers that deliver in short reads / data with io.EOF / empty reads; one file of 32 KiB-70 KiB (flate window, io.Copy buffer, 64 KiB boundaries) in some zips and directories; directories named relative to a working directory (., ../c19root, c19root, sub/..) with top-level dot names; trees and module zips with regular files below specially named directories (.git, .hg, .svn, .bzr, vendor, testdata, _x, .x) at depth 1-4, HashDir/HashZip against the formula over the files actually present; raw archives whose entry names are not canonical fs.FS paths (leading ./ / ../, //, . and .. elements, backslash, trailing slash, non-UTF-8), HashZip against the formula over the entries; two-call histories in one goroutine (a Hash1 whose reader fails after k bytes, or a HashZip on a CRC-damaged entry, followed by Hash1/HashZip/HashDir that must still be the formula); non-trivial = at least two files or a refusal path; distinct by op line"})
+		Rule: "file sets of 0-12 (name, content) pairs from pools (unicode, spaces, double spaces, prefixes of each other, case pairs, newline/NUL/0xff names, hex-looking names, empty and equal contents, SHA-256 block-boundary lengths) and their permutations; real directories (trees of depth <= 3, weird prefixes) and real zips (archive/zip with duplicates and directory entries; zip.Create module zips extracted by zip.Unzip); `open` readers that deliver in short reads / data with io.EOF / empty reads; one file of 32 KiB-70 KiB (flate window, io.Copy buffer, 64 KiB boundaries) in some zips and directories; directories named relative to a working directory (., ../c19root, c19root, sub/..) with top-level dot names; trees and module zips with regular files below specially named directories (.git, .hg, .svn, .bzr, vendor, testdata, _x, .x) at depth 1-4, HashDir/HashZip against the formula over the files actually present; directory trees hashed under prefix variants (empty prefix, one element, dotted, trailing slash) with top-level dot names and their twins without the dot (.env and env), DirFiles/HashDir against the formula over (listed name, content of that file); the same directory reached through a symbolic link in an ancestor component (link shorter / longer than / as long as its target, absolute and relative targets, chains, two links, relative names after chdir; trees written directly or extracted by zip.Unzip through the link), DirFiles/HashDir equal to those of the real path and to HashZip; raw archives whose entry names are not canonical fs.FS paths (leading ./ / ../, //, . and .. elements, backslash, trailing slash, non-UTF-8), HashZip against the formula over the entries; two-call histories in one goroutine (a Hash1 whose reader fails after k bytes, or a HashZip on a CRC-damaged entry, followed by Hash1/HashZip/HashDir that must still be the formula); non-trivial = at least two files or a refusal path; distinct by op line"})
 }
 
 // ---- generators
@@ -1171,7 +1171,9 @@ func c19RelTag(rs c19RelSpelling) string {
 }
 
 func c19GenPrefix(r *Rand) string {
-	switch r.Intn(10) {
+	switch r.Intn(11) {
+	case 10: // the empty prefix, a legal argument (r7-C19-a)
+		return ""
 	case 0, 1, 2:
 		return r.Pick(c19Prefixes)
 	case 3:
@@ -1288,8 +1290,9 @@ func genC19(g *Gen, n int) {
 	for _, o := range c19AfterBoundary() {
 		g.Emit(o.line(), true, "boundary", "after:"+o.k1+"->"+o.k2)
 	}
+	c19LinkBoundary(g) // gap r7-C19-b: every ancestor-link layout once
 	// the random stream keeps at least n/3 ops of its own, however large the fixed lists above grow (today
-	// they are 128 of the quick tier's 3000 ops, so this changes nothing)
+	// they are about 190 of the quick tier's 3000 ops, so this changes nothing)
 	if n < g.st.Ops+n/3 {
 		n = g.st.Ops + n/3
 	}
@@ -1354,6 +1357,9 @@ func genC19(g *Gen, n int) {
 				}
 				g.Emit("dirhash.dirfilesrel "+hx(rs.cwd)+" "+hx(rs.dir)+" "+kind+" "+hx(pfx)+" "+hxList(rels), len(rels) >= 1 || kind != "dir", "dirfilesrel", c19RelTag(rs))
 			}
+			if g.Chance(30) { // the same directory reached through a symbolic link (r7-C19-b)
+				c19EmitLinkOps(g, true, kind, pfx, rels, nil)
+			}
 		case 13, 14, 15:
 			kind := "dir"
 			if g.Chance(6) {
@@ -1362,6 +1368,15 @@ func genC19(g *Gen, n int) {
 			rels := c19GenTree(g.Rand, c19FsElems, false)
 			pfx, contents := c19GenPrefix(g.Rand), c19GenContents(g.Rand, len(rels))
 			hdTags := c19SpecialTags(rels, "hashdir", "root-"+kind)
+			if g.Chance(20) { // top-level names that differ by a leading '.' (r7-C19-a)
+				var tw int
+				if rels, contents, tw = c19AddDotTwins(g.Rand, rels, contents); tw > 0 {
+					hdTags = append(hdTags, "dot-twins")
+				}
+			}
+			if pfx == "" {
+				hdTags = append(hdTags, "empty-prefix")
+			}
 			if kind == "dir" && c19MakeOneBig(g.Rand, 6, rels, contents) {
 				hdTags = append(hdTags, "big-file")
 			}
@@ -1376,6 +1391,9 @@ func genC19(g *Gen, n int) {
 				rs := c19GenRelSpelling(g.Rand, kind, rels)
 				g.Emit("dirhash.hashdirrel "+hx(rs.cwd)+" "+hx(rs.dir)+" "+kind+" "+hx(pfx)+" "+hxList(rels)+" "+hxList(contents),
 					len(rels) >= 1 || kind != "dir", "hashdirrel", c19RelTag(rs))
+			}
+			if g.Chance(30) { // the same directory reached through a symbolic link (r7-C19-b)
+				c19EmitLinkOps(g, false, kind, pfx, rels, contents)
 			}
 		case 16, 17: // raw archive: arbitrary entry names, duplicates, directory entries
 			names, contents, nc := c19GenZipSet(g.Rand, g.Chance(30))
@@ -1583,8 +1601,12 @@ func oracleC19(g *Gen, n int) {
 			c19OracleZipDir(g)
 		}
 		// (6) directory trees against the formula, with files below specially named directories
-		if g.Chance(25) {
+		if g.Chance(35) {
 			c19OracleDirFormula(g)
+		}
+		// (6b) the same directory reached through symbolic links (gap r7-C19-b, util_c19fs.go)
+		if g.Chance(25) {
+			c19OracleLinks(g)
 		}
 		// (7) raw archives, entry names that are not canonical fs.FS paths: HashZip against the formula
 		if g.Chance(50) {
@@ -1847,13 +1869,15 @@ func c19WalkTree(root string) (rels, contents []string, err error) {
 }
 
 // c19CheckDirFormula: for a clean relative prefix without "." and ".." elements (a module path@version),
-// DirFiles(dir, prefix) lists exactly prefix/rel for every regular file rel below dir, and HashDir(dir,
-// prefix) is the documented formula over the (prefix/rel, content) pairs - refused iff a name has a newline.
+// optionally with one trailing slash, and for the EMPTY prefix (gap r7-C19-a, see util_c19fs.go),
+// DirFiles(dir, prefix) lists exactly prefix/rel (rel itself under the empty prefix) for every regular file
+// rel below dir, and HashDir(dir, prefix) is the documented formula over the (listed name, content of that
+// file) pairs - refused iff a name has a newline.
 func c19CheckDirFormula(g *Gen, dir, prefix string, rels, contents []string, replay ...string) bool {
 	names := make([]string, len(rels))
 	mm := map[string]string{}
 	for i, r := range rels {
-		names[i] = prefix + "/" + r
+		names[i] = c19PrefixName(prefix, r)
 		mm[names[i]] = contents[i]
 	}
 	var got []string
@@ -1895,8 +1919,13 @@ func c19CheckDirFormula(g *Gen, dir, prefix string, rels, contents []string, rep
 func c19OracleDirFormula(g *Gen) {
 	rels := c19GenTree(g.Rand, c19FsElems, false)
 	contents := c19GenContents(g.Rand, len(rels))
-	m := c19Mods[g.Intn(len(c19Mods))]
-	prefix := m.Path + "@" + m.Version
+	// gap r7-C19-a: prefix variants (empty, one element, dotted, trailing slash) and top-level names that
+	// differ by a leading '.' (util_c19fs.go)
+	twins := 0
+	if g.Chance(50) {
+		rels, contents, twins = c19AddDotTwins(g.Rand, rels, contents)
+	}
+	prefix := c19GenExactPrefix(g.Rand)
 	scratch := c19Scratch()
 	defer os.RemoveAll(scratch)
 	dir := filepath.Join(scratch, "c19root")
@@ -1906,6 +1935,16 @@ func c19OracleDirFormula(g *Gen) {
 	g.Case("dir-formula")
 	if len(c19BelowSpecial(rels)) > 0 {
 		g.Case("dir-formula-file-below-special-dir")
+	}
+	switch {
+	case prefix == "" && twins > 0:
+		g.Case("dir-formula-empty-prefix-dot-twins")
+	case prefix == "" && c19TopDot(rels):
+		g.Case("dir-formula-empty-prefix-top-level-dot-name")
+	case prefix == "":
+		g.Case("dir-formula-empty-prefix")
+	case !strings.Contains(prefix, "@") || strings.HasSuffix(prefix, "/"):
+		g.Case("dir-formula-prefix-variant")
 	}
 	c19CheckDirFormula(g, dir, prefix, rels, contents,
 		"dirhash.hashdir dir "+hx(prefix)+" "+hxList(rels)+" "+hxList(contents),
